@@ -97,6 +97,17 @@ def c11(r):
     r.tlc_validate("FlowTrace", t, ["C11."])
 
 
+def c17(r):
+    r.tlc_exhaustive("LazyAgg.tla", "LazyAgg.cfg", workers=8)
+    r.tlc_exhaustive("LazyAgg.tla", "LazyAgg_normal.cfg", workers=8)
+    r.tlc_exhaustive("LazyAgg.tla", "LazyAgg_slow.cfg", workers=8)
+    ok, _ = r.tlc_exhaustive("LazyAgg.tla", "LazyAgg_drain.cfg", workers=8, expect_ok=False)
+    if ok:
+        raise Inconclusive("LazyAgg_drain.cfg should reproduce the lost wake-up")
+    t = r.drive("lazy", name="lazy")
+    r.tlc_validate("LazyTrace", t, ["C17."])
+
+
 def c05(r):
     syncer(r, ["C05.", "C02."], crash=True)
 
@@ -129,7 +140,7 @@ def c08(r):
     submitter(r, ["C08."])
 
 
-PIPELINES = {"C01": c01, "C04": c04, "C02": c02, "C05": c05, "C06": c06, "C07": c07, "C08": c08, "C03": c03, "C09": c09, "C10": c10, "C11": c11}
+PIPELINES = {"C01": c01, "C04": c04, "C02": c02, "C05": c05, "C06": c06, "C07": c07, "C08": c08, "C03": c03, "C09": c09, "C10": c10, "C11": c11, "C17": c17}
 ASSUME = {}
 FINISH = {}
 
@@ -138,4 +149,4 @@ def REPLAY_MONITOR(pid, path):
     import os
     import re
     m = re.match(r"%s-([A-Za-z0-9]+)-" % pid, os.path.basename(path))
-    return m.group(1) if m else {"C01": "ProducerTrace", "C04": "ProducerTrace", "C02": "SyncTrace", "C05": "SyncTrace", "C03": "SyncTrace", "C09": "SyncTrace", "C10": "QueueTrace", "C11": "FlowTrace", "C06": "SubmitTrace", "C07": "SubmitTrace", "C08": "SubmitTrace"}[pid]
+    return m.group(1) if m else {"C01": "ProducerTrace", "C04": "ProducerTrace", "C02": "SyncTrace", "C05": "SyncTrace", "C03": "SyncTrace", "C09": "SyncTrace", "C10": "QueueTrace", "C11": "FlowTrace", "C17": "LazyTrace", "C06": "SubmitTrace", "C07": "SubmitTrace", "C08": "SubmitTrace"}[pid]
